@@ -50,7 +50,7 @@ RULE = ("random topologies (1-3 chains with explicit/absent/empty/2-char chain i
         "holds another (often ==-equal twin) topology: .h5 appended (mode='a'), rewritten, topology attribute set twice; the "
         "same .pdb path; data frames used repeatedly; the last stored topology must come back --, add_chain/add_residue/add_atom/add_bond/insert_atom/"
         "delete_atom_by_index on any topology}; subset index lists ascending (60%), descending or unsorted with repeated "
-        "indices; .pdb and plain .h5 saves with 1-3 frames (MODEL/ENDMDL blocks, one CONECT block after the last model); observed: chain-wise dump with back pointers, _atoms/_residues list "
+        "indices; hash() observer ops at random points of the history (ignored by the model) and a stream 'hash first, copy, edit both identically with every count restored'; .pdb and plain .h5 saves with 1-3 frames (MODEL/ENDMDL blocks, one CONECT block after the last model); observed: chain-wise dump with back pointers, _atoms/_residues list "
         "order, counters, bonds with identity facts, == and hash-equality matrices; a case is non-trivial when it "
         "has a transformation and at least two atoms; distinct by hash of the concrete op list.  On the live objects of "
         "every case, model-free: Atom.__eq__ = equality of the six fields of the model's atom_eqb, Bond ==/</<=/>/>= = "
@@ -170,8 +170,10 @@ def gen_tail(rng, n):
     ops = []
     f = rng.random
     for _ in range(n):
-        k = rng.choice(["copy", "copy", "subset", "subset", "join", "pickle", "df", "h5", "pdb", "edit", "edit", "edit"])
-        if k == "copy":
+        k = rng.choice(["copy", "copy", "subset", "subset", "join", "pickle", "df", "h5", "pdb", "edit", "edit", "edit", "hash"])
+        if k == "hash":
+            ops.append(["hash", f()])
+        elif k == "copy":
             ops.append(["copy", f(), rng.choice(["copy", "copy.copy", "deepcopy", "traj_slice"])])
         elif k == "subset":
             dens = rng.choice([0.3, 0.6, 0.9])
@@ -325,6 +327,57 @@ def gen_carrier_history(rng):
     return {"ops": base + twin, "tail": [tail] + gen_tail(rng, rng.randint(0, 2))}
 
 
+def gen_hash_history(rng):
+    """hash() is an observer inside the history: a topology is hashed (dict key) FIRST, a copy is taken, then both
+    are edited identically by a sequence that restores every count (delete an atom, insert another one elsewhere)
+    while renumbering bonded atoms; more observers at random points.  At the end the registers are ==-equal, so
+    their hashes must agree -- including the side that was hashed before its edits."""
+    while True:
+        base = gen_base(rng, 0, False)
+        natoms = sum(1 for o in base if o[0] == "add_atom")
+        nres = sum(1 for o in base if o[0] == "add_residue")
+        bonds = [(o[2], o[3]) for o in base if o[0] == "add_bond"]
+        if natoms >= 3 and bonds:
+            break
+    bonded = {i for b in bonds for i in b}
+    free = [i for i in range(natoms) if i not in bonded and i < max(bonded)]
+    ops = list(base)
+    ops.append(["hash", 0])
+    ops.append(["copy", 0, rng.choice(["copy", "deepcopy"])])
+    if rng.random() < 0.3:
+        ops.append(["hash", 1])
+    edits = []
+    for _ in range(rng.choice([1, 1, 2])):
+        i = rng.choice(free) if free and rng.random() < 0.8 else rng.randrange(natoms)
+        j = rng.randrange(natoms)            # n_atoms - 1 atoms after the deletion: any index 0..n_atoms-1 is legal
+        edits.append((i, [rng.randrange(nres), rng.choice(ATOM_NAMES), rng.choice(ELEMS), j, None, rng.choice([None, 7])]))
+    order = rng.choice(["first0", "first1", "interleaved"])
+    def seq(s):
+        out = []
+        for i, ins in edits:
+            out.append(["delete", s, i])
+            out.append(["insert_atom", s] + ins)
+        return out
+    if order == "first0":
+        ops += seq(0) + seq(1)
+    elif order == "first1":
+        ops += seq(1) + seq(0)
+    else:
+        a, b = seq(0), seq(1)
+        for x, y in zip(a, b):
+            ops += [x, y]
+    if rng.random() < 0.4:
+        ops.append(["hash", rng.choice([0, 1])])
+    if rng.random() < 0.4:
+        ops.append(["copy", 0, "copy"])
+    return {"ops": ops, "concrete": True}
+
+
+def model_ops(ops):
+    """The op list the model sees: hash observers are dropped (they have no status entry either)."""
+    return [o for o in ops if o[0] != "hash"]
+
+
 def gen_case(rng, tables=None):
     if tables is not None and rng.random() < 0.12:
         tail = [["pdb", 0.0, rng.random() < 0.7]] + gen_tail(rng, rng.randint(0, 3))
@@ -431,7 +484,7 @@ def cjv(x):
 
 
 def coq_case(v, ops):
-    return "(%s, %s)" % (cflags(v), clist(["(%s)" % coq_op(o) for o in ops]))
+    return "(%s, %s)" % (cflags(v), clist(["(%s)" % coq_op(o) for o in model_ops(ops)]))
 
 
 REQ = ["MD.Topo.Model", "MD.Topo.Carriers", "MD.Topo.Run"]
@@ -545,6 +598,8 @@ def axes_of(ops):
                 out.append("subset:descending")
             else:
                 out.append("subset:ascending")
+        elif o[0] == "hash":
+            out.append("hash-observer")
         elif o[0] == "pdb":
             out.append("pdb:frames=%d" % (o[4] if len(o) > 4 else 1))
         elif o[0] == "h5":
@@ -683,7 +738,7 @@ def model_outputs(ctx, jobs):
     drv = build_driver(ctx)
     if drv is None:
         return None
-    text = "\n".join("%s|%s" % ("".join("T" if v[f] else "F" for f in FLAGS), ";".join(line_op(o) for o in ops))
+    text = "\n".join("%s|%s" % ("".join("T" if v[f] else "F" for f in FLAGS), ";".join(line_op(o) for o in model_ops(ops)))
                      for v, ops in jobs) + "\n"
     r = subprocess.run(["timeout", "1500", drv], input=text, stdout=subprocess.PIPE, stderr=subprocess.PIPE, text=True)
     lines = r.stdout.splitlines()
@@ -884,6 +939,7 @@ def build_cases(ctx):
     tables = ctx.run_impl("topo_impl.py", {"pdb_tables": [sorted(set(PDB_STD)), PDB_HET]})["tables"]
     cases += [gen_case(rng, tables) for _ in range(500 if quick else 10000)]
     cases += [gen_carrier_history(rng) for _ in range(120 if quick else 2000)]
+    cases += [gen_hash_history(rng) for _ in range(80 if quick else 1500)]
     # exhaustive small scope: every topology shape with <= 3 (quick) / 4 (thorough) atoms x every subset,
     # then an edit of the source and a copy of the subset
     for n, ops in small_topologies(3 if quick else 4):
